@@ -127,6 +127,8 @@ typedef struct {
 
 	short				recurse_depth;
 
+	bool				obfuscation_seeded;		//!< Has the e-mail obfuscation stream been restarted for this export?
+
 	short				in_table_header;
 	short				table_column_count;
 	short				table_cell_count;
